@@ -142,8 +142,8 @@ partial def exec (v : Variant) (env : List Int) : List Stmt → World → World
         else if g == "r" then
           iterList v env body p true (db.retractList (fun c => clMatch kp vp c)) w
         else if h == "b" then
-          let sel : Entry Cl → Bool := fun e => e.cl.key == kp
-          let s := lineFirst v w.clock (db.chain.filter sel)
+          let sel : Cl → Bool := fun c => c.key == kp
+          let s := lineFirst v w.clock (db.chain.filter (fun e => sel e.cl))
           let w := if db.chain.isEmpty then w else { w with reg := s.cc }
           afterLine v env body p kp vp sel s w
         else
@@ -180,7 +180,7 @@ partial def afterChain (v : Variant) (env : List Int) (body : List Stmt) (p : St
       afterChain v env body p kp vp s' { w with reg := s'.cc }
 
 partial def afterLine (v : Variant) (env : List Int) (body : List Stmt) (p : String)
-    (kp vp : Option Int) (sel : Entry Cl → Bool) (s : Step Cl BFrame) (w : World) : World :=
+    (kp vp : Option Int) (sel : Cl → Bool) (s : Step Cl BFrame) (w : World) : World :=
   if w.dead then w else
   let w := { w with budget := w.budget - 1 }
   if s.stuck then { w with stuck := true } else
@@ -192,7 +192,7 @@ partial def afterLine (v : Variant) (env : List Int) (body : List Stmt) (p : Str
     | none => w
     | some f =>
       let db := w.db p
-      let s' := lineNext v w.reg f (db.chain.filter sel)
+      let s' := lineNext v w.reg f (db.chain.filter (fun e => sel e.cl))
       afterLine v env body p kp vp sel s' { w with reg := s'.cc }
 end
 
